@@ -217,6 +217,18 @@ def body(chk):
             sub = rnd.sample(fields, min(len(fields), rnd.randint(2, 40)))
             cases.append(dict(level=level, seed=chk.seed + 100 + j, k=j % 12, images=(("HH", None, 2, 2),), blank=sub, files=("VOL", "LED", "IMG"),
                               fs="local", tag=f"subset{j}:{len(sub)}"))
+        if level == "1.5":
+            # complex fields (two 16-character halves): ONE half blank -> that component missing, no exception
+            from harness import layout as L
+
+            acs = set()
+            for rec in L.instance(**dict(L.SMALL_LEADER))["records"]:
+                acs |= {(rec["name"], path) for path, off, leaf, arr in L.leaves(rec) if leaf["k"] == "ac"}
+            halves = [f for f in fields if (f[1], f[3]) in acs]
+            for j, f in enumerate(halves):
+                v = (None, "-2.5000000E+00") if j % 2 else ("7.2500000E-01", None)
+                cases.append(dict(level=level, seed=chk.seed + 3, k=None, images=(("HH", None, 2, 2),), overrides={f: v}, blank=[], files=("LED",), fs="local",
+                                  tag=f"half-blank:{f[1]}:{f[3]}:{'real' if j % 2 else 'imag'}"))
         allf = list(fields)
         cases.append(dict(level=level, seed=chk.seed + 999, k=0, images=(("HH", None, 2, 2),), blank=allf, files=("VOL", "LED", "IMG"), fs="local",
                           tag=f"all-blank:{len(allf)}"))
@@ -225,7 +237,7 @@ def body(chk):
     for res in results:
         c = res["case"]
         chk.count(1, c["tag"])
-        one = c["blank"][0]
+        one = c["blank"][0] if c["blank"] else next(iter(c["overrides"]))
         where = f"{'IMG' if one[0].startswith('IMG') else one[0]}:{one[1]}:{one[3]}" if len(c["blank"]) == 1 else c["tag"]
         if res["open"] != "ok":
             chk.violation(f"blank-raises:{where}", f"blanking {c['tag']} makes open_alos2 fail: {res['open']}", {"case": c})
